@@ -26,6 +26,50 @@ def pVDispatch : P (WShape × Iso3 Float × WShape × Iso3 Float × Float × Flo
 /-- all four verdicts equal `expected` -/
 def allAre (vs : List Bool) (expected : Bool) : Bool := vs.all (· == expected)
 
+/-- exact separating-axis test for two boxes over all 15 axes (3 + 3 face normals, 9 edge cross products):
+the largest separation along an axis (`> 0`: disjoint, and it bounds the distance from below; `< 0`: the boxes
+overlap and `-value` is the penetration depth).  Rational arithmetic on the given poses; only the normalisation of the
+axis uses a square root (absolute error below 2^-40). -/
+def satCuboids (he1 : V3 Rat) (P1 : Iso3 Rat) (he2 : V3 Rat) (P2 : Iso3 Rat) : Option Rat :=
+  let a : List (V3 Rat) := [P1.rot ⟨1, 0, 0⟩, P1.rot ⟨0, 1, 0⟩, P1.rot ⟨0, 0, 1⟩]
+  let b : List (V3 Rat) := [P2.rot ⟨1, 0, 0⟩, P2.rot ⟨0, 1, 0⟩, P2.rot ⟨0, 0, 1⟩]
+  let h1 := [he1.x, he1.y, he1.z]; let h2 := [he2.x, he2.y, he2.z]
+  let c := P2.t.sub P1.t
+  let axes := a ++ b ++ (a.flatMap fun u => b.map fun v => u.cross v)
+  let sepOn (l : V3 Rat) : Option Rat :=
+    let n2 := l.normSq
+    if n2 * 1000000000000 < 1 then none else
+    let ra := ((a.zip h1).map fun (u, h) => h * rabs (u.dot l)).foldl (· + ·) 0
+    let rb := ((b.zip h2).map fun (u, h) => h * rabs (u.dot l)).foldl (· + ·) 0
+    some ((rabs (c.dot l) - ra - rb) / rsqrt n2)
+  match axes.filterMap sepOn with
+  | [] => none
+  | v :: vs => some (vs.foldl max v)
+
+def pKArgs : P (WShape × Iso3 Float × WShape × Iso3 Float × Float) := do
+  let a ← pshape; let m1 ← piso3; let b ← pshape; let m2 ← piso3; let p ← pf; pure (a, m1, b, m2, p)
+
+/-- self-consistency of a world-frame contact: unit normals, `normal2 = -normal1`, `dist = (p2 - p1)·n1`,
+each witness on its own shape (membership distances `m1 m2` from the point query), `dist ≤ prediction` -/
+def judgeSelf (tag : String) (sz S pred : Rat) (c : Contact3 Rat) (memb : List String) : String :=
+  let t6 : Rat := (1 / 1000000) * (1 + sz) + tol * S
+  let wtol : Rat := (2 / 1000) * (sz + rabs c.dist) + (1 / 1000000) * (1 + S)
+  if c.normal1.normSq == 0 && c.dist == 0 then s!"fail null-contact {tag} (zero normals, dist 0: EPA gave up)"
+  else if !close c.normal1.normSq 1 1000 then s!"fail normal1-not-unit {tag}"
+  else if !close c.normal2.normSq 1 1000 then s!"fail normal2-not-unit {tag}"
+  else if !closeV c.normal2 c.normal1.neg 1000 then s!"fail normal2-is-not-minus-normal1-in-world {tag}"
+  else if rabs ((c.point2.sub c.point1).dot c.normal1 - c.dist) > t6 + (1 / 1000000) * rabs c.dist then
+    s!"fail dist-is-not-(p2-p1).n1 {tag} dist={c.dist.toF} (p2-p1).n1={((c.point2.sub c.point1).dot c.normal1).toF}"
+  else if c.dist > pred + t6 then s!"fail dist-beyond-prediction {tag}"
+  else match run (do let a ← pfo; let b ← pfo; pure (a, b)) memb with
+    | none => "fail unparsable-output"
+    | some (m1, m2) =>
+      let touch := if c.dist == 0 then " exactly-touching" else ""
+      if !(FloatIO.isFinite m1 && FloatIO.isFinite m2) then s!"fail membership-nonfinite {tag}"
+      else if q m1 > wtol then s!"fail witness1-not-on-its-shape {tag}{touch} off-by={m1}"
+      else if q m2 > wtol then s!"fail witness2-not-on-its-shape {tag}{touch} off-by={m2}"
+      else "pass"
+
 def handler (fn : String) : Option Handler :=
   match fn with
   | "d_contact" | "d_distance" | "d_it" | "d_cp" | "q_contact" | "q_distance" | "q_it" | "q_cp"
@@ -73,9 +117,11 @@ def handler (fn : String) : Option Handler :=
               | [a, _, c, d] => [a, FloatIO.isFinite dist && q dist ≤ t, c, d]
               | vs => vs
             -- referee: exact separation where a closed form exists, otherwise the implementation's own numbers
-            let exact : Option Rat := match s1.closed, s2.closed with
-              | some a, some b => (worldPair a m1 b m2).sep.map (·.1)
-              | _, _ => none
+            let exact : Option Rat := match s1, s2 with
+              | .cuboid h1, .cuboid h2 => satCuboids (q3 h1) (qiso3 m1) (q3 h2) (qiso3 m2)
+              | _, _ => match s1.closed, s2.closed with
+                | some a, some b => (worldPair a m1 b m2).sep.map (·.1)
+                | _, _ => none
             match exact with
             | some sep =>
               if sep > t then (if allAre vs false then "pass" else s!"fail verdicts-disagree {pair} exact-separation={sep.toF} got={vs}")
@@ -87,6 +133,78 @@ def handler (fn : String) : Option Handler :=
               else if FloatIO.isFinite cdist && q cdist < -t then
                 (if allAre vs true then "pass" else s!"fail verdicts-disagree {pair} contact-dist={cdist} got={vs}")
               else "skip near-touching"
+        | none => "skip bad-args" }
+  | "sat_normal" | "sat_edge" | "it_cc" => some {
+      model := fun a => run (do
+        let he1 ← pv3; let he2 ← pv3; let m ← piso3
+        match fn with
+        | "sat_normal" => let r := satNormalOneway he1 he2 m; pure s!"{ff r.1} {fv3 r.2}"
+        | "sat_edge" => let r := satEdgeTwoway he1 he2 m; pure s!"{ff r.1} {fv3 r.2}"
+        | _ => pure (fb (intersectionTestCuboidCuboid m he1 he2))) a
+      oracle := fun a o => match run (do let he1 ← pv3; let he2 ← pv3; let m ← piso3; pure (he1, he2, m)) a with
+        | some (he1, he2, m) =>
+          let M := qiso3 m; let H1 := q3 he1; let H2 := q3 he2
+          if !unitQ M then "skip non-unit-rotation" else
+          let t : Rat := (1 / 1000000) * (1 + vmag H1 + vmag H2 + vmag M.t)
+          match satCuboids H1 Iso3.identity H2 M with
+          | none => "skip degenerate"
+          | some ex =>
+            if fn = "it_cc" then
+              withOut pbool o fun r =>
+                if ex > t && r then s!"fail intersecting-but-separated-by {ex.toF} (exact 15-axis SAT)"
+                else if ex < -t && !r then s!"fail disjoint-but-overlapping-by {ex.toF} (exact 15-axis SAT)"
+                else if rabs ex ≤ t then "skip near-touching" else "pass"
+            else
+              withOut (do let s ← pfo; let d ← pov3; pure (s, d)) o fun (s, d) =>
+                if !(FloatIO.isFinite s && finite3 d) then "fail nonfinite-output" else
+                let D := q3 d
+                if D.normSq == 0 then (if fn = "sat_edge" then "skip no-edge-axis" else "fail zero-axis") else
+                -- the reported value is the separation along the reported (unit) axis, and never exceeds the best axis
+                let a1 : List (V3 Rat) := [⟨1, 0, 0⟩, ⟨0, 1, 0⟩, ⟨0, 0, 1⟩]
+                let b1 : List (V3 Rat) := a1.map M.rot
+                let ra := ((a1.zip [H1.x, H1.y, H1.z]).map fun (u, h) => h * rabs (u.dot D)).foldl (· + ·) 0
+                let rb := ((b1.zip [H2.x, H2.y, H2.z]).map fun (u, h) => h * rabs (u.dot D)).foldl (· + ·) 0
+                let along := M.t.dot D - ra - rb
+                if !close D.normSq 1 1000 then "fail axis-not-unit"
+                else if rabs (along - q s) > t then s!"fail separation-along-reported-axis reported={s} exact={along.toF}"
+                else if q s > ex + t then s!"fail separation-exceeds-exact-SAT reported={s} exact={ex.toF}"
+                else "pass"
+        | none => "skip bad-args" }
+  | "k_contact" => some {
+      model := fun _ => some "oracle-only"
+      oracle := fun a o => match run pKArgs a with
+        | some (s1, m1, s2, m2, pred) =>
+          let tag := s!"pair={wkind s1}/{wkind s2}"
+          match o with
+          | "panic" :: _ => s!"fail panic {tag}"
+          | ["unsupported"] => "skip unsupported-pair"
+          | ["none"] => "skip no-contact-within-prediction"
+          | _ =>
+            let (res, memb) := splitAt o
+            match run pcontactOut res with
+            | some (some c) =>
+              if !finiteContact c then s!"fail nonfinite-output {tag}" else
+              if !(unitQ (qiso3 m1) && unitQ (qiso3 m2)) then "skip non-unit-rotation" else
+              judgeSelf tag (wsize s1 + wsize s2) (vmag (q3 m1.t) + vmag (q3 m2.t)) (q pred) (qcontact c) memb
+            | _ => "fail unparsable-output"
+        | none => "skip bad-args" }
+  | "k2_contact" => some {
+      model := fun _ => some "oracle-only"
+      oracle := fun a o => match run (do let a ← pshape2; let m1 ← piso2; let b ← pshape2; let m2 ← piso2; let p ← pf; pure (a, m1, b, m2, p)) a with
+        | some (s1, m1, s2, m2, pred) =>
+          let tag := s!"pair={s1.kind}/{s2.kind}"
+          match o with
+          | "panic" :: _ => s!"fail panic {tag}"
+          | ["unsupported"] => "skip unsupported-pair"
+          | ["none"] => "skip no-contact-within-prediction"
+          | _ =>
+            let (res, memb) := splitAt o
+            match run pcontactOut2 res with
+            | some (some c) =>
+              if !finiteContact2 c then s!"fail nonfinite-output {tag}" else
+              if !(unitC (qiso2 m1) && unitC (qiso2 m2)) then "skip non-unit-rotation" else
+              judgeSelf tag (s1.size + s2.size) (vmag2 (q2 m1.t) + vmag2 (q2 m2.t)) (q pred) (embedC (qcontact2 c)) memb
+            | _ => "fail unparsable-output"
         | none => "skip bad-args" }
   | _ => none
 
